@@ -77,6 +77,17 @@ func cmdManyInlined(a Args) {
 			} else if k > 256 {
 				rep.Distinct(tag)
 			}
+			// C06/C07 oracles of the codec harness on the parent's slabs (sizes vs bytes, flags, round trip);
+			// a slab the encoder refuses is not checked (the refusal is handled below)
+			if root, ok, _ := st.Retrieve(parent.SlabID()); ok {
+				if _, encErr := atree.EncodeSlab(root, encMode); encErr == nil {
+					ck := &codecChecker{rep: rep, tr: nil, hist: h, tag: tag, T: T, compact: compact, seen: map[uint64]bool{}, maxTr: 0}
+					ck.checkSlab(root, "parent root")
+					if len(rep.Violations) > 0 {
+						failed = true
+					}
+				}
+			}
 			before := len(base.Segs)
 			err = st.FastCommit(2)
 			if err != nil {
